@@ -922,6 +922,21 @@ func checkReencode(c *facet.Ctx, in DocIn) error {
 	if diff := canonDiff(wantCanon, got, ""); diff != "" {
 		return facet.Failf("doc-reencode-differs", "document %s re-marshalled as %s: %s", clip(b), clip(b2), diff)
 	}
+	// The decoded value - whose types are the library's own (the canonical empty
+	// tuple and object among them), not the harness's - must also survive the
+	// round trip under the dynamic placeholder, where its type travels in the
+	// document.
+	b3, err, pan := marshal(v, cty.DynamicPseudoType)
+	if pan != nil || err != nil {
+		return facet.Failf("doc-dynamic-marshal", "Marshal of %#v (decoded from %s) under the dynamic placeholder failed: %v %v", v, clip(b), err, pan)
+	}
+	v3, err, pan := unmarshal(b3, cty.DynamicPseudoType)
+	if pan != nil || err != nil {
+		return facet.Failf("doc-dynamic-unmarshal", "Unmarshal of %s (Marshal of the value decoded from %s, under the dynamic placeholder) failed: %v %v", clip(b3), clip(b), err, pan)
+	}
+	if !v3.Type().Equals(v.Type()) || !v3.RawEquals(v) {
+		return facet.Failf("doc-dynamic-differs", "the value decoded from %s came back from a round trip under the dynamic placeholder as %#v (was %#v)", clip(b), v3, v)
+	}
 	return nil
 }
 
